@@ -27,7 +27,7 @@ ASSUMPTIONS = [
     "coincidence bound for fresh-IV / wrong-key clauses: 2^-128 (IV) and < 2^-8 per case only for the "
     "'wrong key returns a different value' disjunct, which is why that clause accepts raise OR different value",
 ]
-REQUIRED = ["mode:cipher", "mode:bad-decrypt", "mode:bad-stored", "method:aes", "method:xor", "method:best",
+REQUIRED = ["mode:aes-blob", "blob:drop-blocks", "blob:fake-pad", "mode:cipher", "mode:bad-decrypt", "mode:bad-stored", "method:aes", "method:xor", "method:best",
             "len>32-unaligned", "non-utf8"]
 LEVEL_TEXT = (
     "Generated-input search over keys x plaintexts x methods with an independent cipher implementation as the "
@@ -121,7 +121,20 @@ def strategy(tier):
             st.fixed_dictionaries({"k": st.just("extra-keys"), "v": junk}),
         ),
     })
-    return st.one_of(cipher, cipher, cipher, bad_decrypt, bad_stored)
+    # block-aligned blobs of >= 32 bytes that are NOT honest ciphertexts: truncated by whole blocks, random, or
+    # reference-encrypted data whose final bytes only look like padding. Here the standard (reference) decryption is
+    # the oracle: it either yields a value (then the library must yield the same) or rejects (then so must the library).
+    blob = st.fixed_dictionaries({
+        "mode": st.just("aes-blob"), "key": _keys(), "plain": st.one_of(_plaintext(), st.sampled_from(LENGTHS).map(lambda n: b"line\n" * (n // 5 + 1))),
+        "iv": st.binary(min_size=16, max_size=16),
+        "what": st.one_of(
+            st.fixed_dictionaries({"k": st.just("drop-blocks"), "n": st.integers(1, 4)}),
+            st.fixed_dictionaries({"k": st.just("random"), "data": st.integers(2, 5).flatmap(lambda b: st.binary(min_size=16 * b, max_size=16 * b))}),
+            st.fixed_dictionaries({"k": st.just("fake-pad"), "last": st.integers(1, 16), "junk": st.binary(min_size=15, max_size=15)}),
+            st.fixed_dictionaries({"k": st.just("flip-last-block"), "bit": st.integers(0, 127)}),
+        ),
+    })
+    return st.one_of(cipher, cipher, cipher, bad_decrypt, bad_stored, blob, blob)
 
 
 def _realize(v):
@@ -339,10 +352,55 @@ def _bad_stored(case, R, d):
         R.check(cfg2.s == "previous", "reject", "load_tree-kept:" + k, "secret became %r after a rejected load" % (cfg2.s,))
 
 
+def _aes_blob(case, R, d):
+    cc = sandbox._state["cc"]
+    from cincoconfig.encryption import AesProvider
+    key, p, what = case["key"], case["plain"], case["what"]
+    k = what["k"]
+    R.label("blob:" + k)
+    honest = aesref.encrypt(key, case["iv"], p)
+    if k == "drop-blocks":
+        blob = honest[: max(len(honest) - 16 * what["n"], 32)]
+    elif k == "random":
+        blob = what["data"]
+    elif k == "fake-pad":
+        # final plaintext block ends in a byte 1..16 but the bytes before it are not padding
+        body = (p + what["junk"])[: 16 * ((len(p) + 15) // 16 + 1) - 1] if p else what["junk"]
+        body = body[: max(len(body) // 16 * 16 - 1, 15)] + bytes([what["last"]])
+        body = body[-(len(body) // 16 * 16):] if len(body) % 16 else body
+        body = body.rjust(16, b"x") if len(body) < 16 else body[: len(body) // 16 * 16]
+        blob = case["iv"] + aesref.cbc_encrypt_raw(key, case["iv"], body)
+    else:
+        i = what["bit"]
+        blob = honest[:-16] + bytes([honest[-16 + i // 8] ^ (1 << (i % 8)) if j == i // 8 else honest[-16 + j] for j in range(16)])
+    if len(blob) < 32 or len(blob) % 16:
+        return
+    try:
+        want = ("ok", aesref.decrypt(key, blob))
+    except ValueError:
+        want = ("reject", None)
+    R.nontrivial = True
+    for site, fn in (("aesprovider", lambda: AesProvider(key).decrypt(blob)),
+                     ("keyfile", lambda: _kf_decrypt(cc, d, key, blob))):
+        try:
+            got = ("ok", fn())
+        except Exception:
+            got = ("reject", None)
+        R.check(got == want, "aes-standard", site + ":" + k,
+                lambda: "%d-byte blob (%s): standard AES-256-CBC/PKCS7 says %r, library says %r" % (len(blob), k, want, got))
+
+
+def _kf_decrypt(cc, d, key, blob):
+    with cc.KeyFile(_write_key(d, "kb", key)) as ctx:
+        return ctx.decrypt(cc.fields.SecureValue("aes", blob))
+
+
 def run_case(case, R):
     R.label("mode:" + case["mode"])
     with sandbox.CaseDir() as d:
-        if case["mode"] == "cipher":
+        if case["mode"] == "aes-blob":
+            _aes_blob(case, R, d)
+        elif case["mode"] == "cipher":
             _cipher(case, R, d)
         elif case["mode"] == "bad-decrypt":
             _bad_decrypt(case, R, d)
